@@ -66,6 +66,15 @@ class COFF(BinFormat):
         return self.__file
 
     def __init__(self, f):
+        try:
+            self.__parse(f)
+        except (COFFError, StructureError):
+            raise
+        except Exception as e:
+            # malformed content is reported as a COFFError only:
+            raise COFFError("malformed COFF file (%s)" % repr(e))
+
+    def __parse(self, f):
         self.__file = f
         self.Fhdr = FILEHDR(f)
         offset = self.Fhdr.size()
